@@ -115,7 +115,24 @@ func (sc *RevScenario) evalRevCall(rc *ruleCtx, obs *RevObs, co *CallObs) {
 		return
 	}
 	if co.Panicked {
-		return // panic rules are evaluated by the caller (C09/C17)
+		// injected panics are judged by C17.R4, hostile-input panics by C09.R1;
+		// for the properties that promise results for every valid chain an
+		// uninjected panic is a failure to deliver them
+		if sc.PanicAt == "" {
+			if rc.on("C06") {
+				rc.anteTrue("C06.R4")
+				rc.fail("C06.R4", panicSig(co.PanicVal), fmt.Sprintf("valid chain via %s: the call panicked instead of returning results: %v", entryNames[w.Entry], co.PanicVal))
+			}
+			if rc.on("C12") {
+				rc.anteTrue("C12.R1")
+				rc.fail("C12.R1", panicSig(co.PanicVal), fmt.Sprintf("valid chain via %s: the call panicked instead of returning results: %v", entryNames[w.Entry], co.PanicVal))
+			}
+			if rc.on("C05") {
+				rc.anteTrue("C05.R2")
+				rc.fail("C05.R2", panicSig(co.PanicVal), fmt.Sprintf("valid chain via %s: the call panicked instead of reporting Unknown: %v", entryNames[w.Entry], co.PanicVal))
+			}
+		}
+		return
 	}
 	n := len(w.Certs)
 	// ---------- C06.R4 / C12.R1 ----------
